@@ -1,0 +1,20 @@
+//go:build verif
+
+package csproto
+
+// This file is only compiled with the "verif" build tag.  It exposes internal state to the
+// verification harness in /verif; nothing here is reachable in a normal build.
+
+// VerifOffset returns the encoder's current write offset.
+func (e *Encoder) VerifOffset() int {
+	return e.offset
+}
+
+// VerifResetMsgTypeCache forgets every cached message-type classification so that the
+// "first use of a type" path of MsgType can be exercised repeatedly in one process.
+func VerifResetMsgTypeCache() {
+	unmarshalMap.Range(func(k, _ any) bool {
+		unmarshalMap.Delete(k)
+		return true
+	})
+}
